@@ -221,6 +221,13 @@ def oracles(ctx, deep):
             l1, l2 = ll(xin, k, S, mask), ll(xin, k2, S, mask)
             if not torch.equal(l1, l2):
                 add(Violation("noninterference", "MRILogLikelihood depends on unsampled k-space (max diff %.3g), %s" % (float((l1 - l2).abs().max()), cfg), {"config": cfg}, {"fn": "MRILogLikelihood"}))
+            # the same with the scaling argument the RIM engine always passes (one value, or one per batch element)
+            for sc in (torch.tensor([0.25]), torch.full((N,), 0.5)):
+                s1, s2 = ll(xin, k, S, mask, sc), ll(xin, k2, S, mask, sc)
+                if not torch.equal(s1, s2):
+                    add(Violation("noninterference", "MRILogLikelihood with loglikelihood_scaling depends on unsampled k-space (max diff %.3g), %s" % (float((s1 - s2).abs().max()), cfg), {"config": cfg, "scaling": sc.tolist()}, {"fn": "MRILogLikelihood-scaled"}))
+                if not torch.allclose(s1, float(sc[0]) * l1, rtol=1e-4, atol=1e-4 * max(1.0, float(l1.abs().max()))):
+                    add(Violation("likelihood-scaling-linear", "MRILogLikelihood(scaling=c) != c * MRILogLikelihood() (max diff %.3g), %s" % (float((s1 - float(sc[0]) * l1).abs().max()), cfg), {"config": cfg, "scaling": sc.tolist()}, {"fn": "MRILogLikelihood-scaled"}))
             # the prediction term is masked too: with all data consistent on the support the block vanishes there
             kc = fwd(T.expand_operator(img, S, dim=1), dim=(2, 3)) + torch.where(mask == 0, noise, torch.zeros(1))
             l3 = ll(xin, kc, S, mask)
